@@ -33,7 +33,7 @@ Proof.
   destruct (edge_points st id par [p]) as [st'|err] eqn:E.
   - cbn [fst].
     destruct (edge_points_edge_rows st id par [p] st' W HO Hpar E) as (Hsame & Hother & HO').
-    destruct (handle_inv st (EdgePts id par [p]) W HI (conj Hpar Hnone)) as [W' HI'].
+    destruct (handle_inv st (EdgePts id par [p]) W HI Hpar) as [W' HI'].
     cbn [handle] in W', HI'. rewrite E in W', HI'. cbn [state_of fst] in W', HI'.
     split; [|split; [exact Hother|split; [exact (edge_points_nodes _ _ _ _ _ E)|]]].
     + rewrite Hsame. unfold batch_rows. rewrite merge_batch_ins.
